@@ -35,7 +35,7 @@ man = {
     "engines": [{
         "name": "lean4-model+correspondence", "path": "/verif/lean",
         "serves_properties": [c["property_id"] for c in checks],
-        "kind_free_text": "Lean 4 model of the crate (lean/NetflowModel), theorems per property (Props/), tables and layouts regenerated from the Rust source by tools/translate.py on every run, executable model compared with the real crate through harness/nfh and the nfdriver line protocol",
+        "kind_free_text": "Lean 4 model of the crate (lean/NetflowModel), theorems per property (Props/), tables, layouts, value-codec arms, control skeleton and exporter programs regenerated from the Rust source by tools/translate.py on every run, executable model compared with the real crate through harness/nfh and the nfdriver line protocol",
     }],
     "checks": checks,
     "notes": M.NOTES,
